@@ -18,7 +18,7 @@ BUILTIN = {0: "ADD", 1: "AVERAGE_POOL_2D", 2: "CONCATENATION", 3: "CONV_2D", 4: 
            43: "SQUEEZE", 45: "STRIDED_SLICE", 49: "SPLIT", 55: "MAXIMUM", 57: "MINIMUM", 65: "SLICE", 67: "TRANSPOSE_CONV",
            70: "EXPAND_DIMS", 97: "RESIZE_NEAREST_NEIGHBOR", 98: "LEAKY_RELU", 101: "ABS", 114: "QUANTIZE", 117: "HARD_SWISH",
            39: "TRANSPOSE", 83: "PACK", 88: "UNPACK", 102: "SPLIT_V", 47: "EXP", 56: "ARG_MAX", 59: "NEG", 76: "RSQRT",
-           75: "SQRT", 73: "LOG", 66: "SIN", 53: "CAST", 42: "DIV", 90: "FLOOR_DIV", 105: "REVERSE_V2", 8: "FLOOR", 108: "COS"}
+           75: "SQRT", 73: "LOG", 99: "SQUARED_DIFFERENCE", 66: "SIN", 53: "CAST", 42: "DIV", 90: "FLOOR_DIV", 105: "REVERSE_V2", 8: "FLOOR", 108: "COS"}
 DT = {"int8": "i8", "uint8": "u8", "int16": "i16", "int32": "i32", "int64": "i64"}
 QRANGE = {"int8": (-128, 127), "uint8": (0, 255), "int16": (-32768, 32767)}
 
@@ -255,6 +255,22 @@ def op_text(model, sg, op, kind):
               1 if opt(op, 0, "b", 0) == 0 else 0, lo, hi, opt(op, 5, "b", 0)]]
     elif kind in ("ADD", "SUB"):
         g = [add_params(kind, T[ins[0]], T[ins[1]], T[outs[0]], opt(op, 0, "b", 0))]
+    elif kind == "SQUARED_DIFFERENCE":
+        s1, _ = one_scale(T[ins[0]], kind)
+        s2, _ = one_scale(T[ins[1]], kind)
+        so, _zo = one_scale(T[outs[0]], kind)
+        dtype = T[outs[0]]["type"]
+        if dtype not in ("int8", "int16") or any(T[i]["type"] != dtype for i in ins[:2]):
+            raise NotSimulated(f"SQUARED_DIFFERENCE:{dtype}")
+        ls = 0 if dtype == "int16" else 7
+        twice_max = np.float64(2.0) * np.float64(max(s1, s2))
+        m1, sh1 = quantize_multiplier(np.float64(s1) / twice_max)
+        m2, sh2 = quantize_multiplier(np.float64(s2) / twice_max)
+        mo, sho = quantize_multiplier(twice_max * twice_max / (np.float64(1 << (ls * 2)) * np.float64(so)))
+        if sh1 > 0 or sh2 > 0 or sho > 0:
+            raise NotSimulated("SQUARED_DIFFERENCE:multiplier_not_smaller_than_one")     # the reference kernel rejects it
+        lo, hi = QRANGE[dtype]
+        g = [[lo, hi, ls, m1, sh1, m2, sh2, mo, sho]]
     elif kind == "MUL":
         s1, _ = one_scale(T[ins[0]], kind)
         s2, _ = one_scale(T[ins[1]], kind)
